@@ -15,3 +15,4 @@ import Gleece.Properties.Serve
 #print axioms Gleece.Serve.called_only_if_approved
 #print axioms Gleece.Serve.all_denied_refused
 #print axioms Gleece.Serve.approvesAll_deny
+#print axioms Gleece.Reduce.reduce_is_effective
